@@ -92,7 +92,7 @@ Proof.
   destruct (c09_Forall2_combine _ _ _ _ _ E1 Hx) as (sc & sd & Ef). apply in_combine_l in Hx. rewrite Hfs in Hx.
   apply in_map_iff in Hx as (f & <- & Hf). destruct (Hmk f Hf) as (Htp & Hpos & Hty & Hown & Hgs).
   unfold c09_type_refs in Hr. rewrite sw_names_strip in Hr. fold (c09_type_refs Swift (pfx ++ renamed (sid rs)) C9Field ty) in Hr.
-  rewrite <- Hpos in Hr. eapply (sw_refs (mk f) (sgenerics rs)); [exact Htp| | |exact Hown|exact Hr]; unfold c09_recon_type; rewrite Hpos, Hty.
+  rewrite <- Hpos in Hr. eapply (sw_refs (mk f) (sgenerics rs)); [exact Htp| | |exact Hown|exact Hr]; unfold c09_recon_type; rewrite Hty.
   - exact (sw_field_names cfg _ _ _ _ _ Ef).
   - exact Hgs.
 Qed.
